@@ -1,6 +1,7 @@
 package gosmt
 
 import (
+	"fmt"
 	"go/types"
 
 	"golang.org/x/tools/go/ssa"
@@ -395,8 +396,14 @@ func (e *Engine) mergeValues(c *Term, a, b Value) (Value, bool) {
 		return n, true
 	case Pointer:
 		y, ok := b.(Pointer)
-		if !ok || x.Obj != y.Obj {
+		if !ok {
 			return nil, false
+		}
+		if x.Obj != y.Obj {
+			if !samePath(x.Path, y.Path) || !e.unify(x.Obj, y.Obj) {
+				return nil, false
+			}
+			return x, true
 		}
 		if x.Obj == nil {
 			return x, true
@@ -423,7 +430,10 @@ func (e *Engine) mergeValues(c *Term, a, b Value) (Value, bool) {
 		return Pointer{Obj: x.Obj, Path: p}, true
 	case Slice:
 		y, ok := b.(Slice)
-		if !ok || x.Obj != y.Obj || !samePath(x.Base, y.Base) {
+		if !ok || !samePath(x.Base, y.Base) {
+			return nil, false
+		}
+		if x.Obj != y.Obj && !e.unify(x.Obj, y.Obj) {
 			return nil, false
 		}
 		if x.Obj == nil {
@@ -441,7 +451,7 @@ func (e *Engine) mergeValues(c *Term, a, b Value) (Value, bool) {
 			}
 			return nil, false
 		}
-		if !x.Conc && !y.Conc && x.Obj == y.Obj && samePath(x.Base, y.Base) {
+		if !x.Conc && !y.Conc && samePath(x.Base, y.Base) && (x.Obj == y.Obj || e.unify(x.Obj, y.Obj)) {
 			return Str{Obj: x.Obj, Base: x.Base, Off: e.tt.Ite(c, x.Off, y.Off), Len: e.tt.Ite(c, x.Len, y.Len)}, true
 		}
 		return nil, false
@@ -490,7 +500,7 @@ func (e *Engine) mergeValues(c *Term, a, b Value) (Value, bool) {
 		return n, true
 	case MapRef:
 		y, ok := b.(MapRef)
-		return a, ok && x.Obj == y.Obj
+		return a, ok && (x.Obj == y.Obj || e.unify(x.Obj, y.Obj))
 	case Tuple:
 		y, ok := b.(Tuple)
 		if !ok || len(x) != len(y) {
@@ -624,28 +634,40 @@ func (e *Engine) guardOf(s *State, base int) *Term {
 
 // merge2 merges b into a (value = ite(guard(a), a, b)); returns nil if incompatible.
 func (e *Engine) merge2(a, b *State, base int) *State {
+	n, why := e.merge2x(a, b, base)
+	if n == nil && e.mergeFailLog != nil {
+		e.mergeFailLog(why)
+	}
+	return n
+}
+
+func (e *Engine) merge2x(a, b *State, base int) (*State, string) {
+	why := "shape"
 	if a.status != b.status || len(a.frames) != len(b.frames) || a.noPanic != b.noPanic {
-		return nil
+		return nil, why
 	}
 	if len(a.nondetLog) != len(b.nondetLog) {
-		return nil
+		return nil, why
 	}
 	for i := range a.frames {
 		fa, fb := a.frames[i], b.frames[i]
 		if fa.fn != fb.fn || fa.block != fb.block || fa.ip != fb.ip || len(fa.defers) != len(fb.defers) {
-			return nil
+			return nil, why
 		}
 	}
 	ga := e.guardOf(a, base)
 	gb := e.guardOf(b, base)
 	if ga == e.tt.False {
-		return b
+		return b, ""
 	}
 	if gb == e.tt.False {
-		return a
+		return a, ""
 	}
 	n := e.fork(a)
 	e.stats.States-- // merging does not add a state
+	mc := &mergeCtx{a: a, b: b, uni: map[*Obj]*Obj{}, rev: map[*Obj]*Obj{}}
+	e.mctx = mc
+	defer func() { e.mctx = nil }()
 	// registers: only the top frame can differ (SSA registers of suspended frames are immutable)
 	for i := range a.frames {
 		fa, fb, fn := a.frames[i], b.frames[i], n.frames[i]
@@ -668,11 +690,12 @@ func (e *Engine) merge2(a, b *State, base int) *State {
 			}
 			m, ok := e.mergeValues(ga, va, vb)
 			if !ok {
+				why = fmt.Sprintf("register %d of %s: %s vs %s", r, fa.fn.Name(), describe(va), describe(vb))
 				if !fa.info.liveAt(fa.block, r) {
 					fn.regs[r] = Poison{"dead register after merge"}
 					continue
 				}
-				return nil
+				return nil, why
 			}
 			fn.regs[r] = m
 		}
@@ -690,16 +713,16 @@ func (e *Engine) merge2(a, b *State, base int) *State {
 			da, db := fa.defers[d], fb.defers[d]
 			m, ok := e.mergeValues(ga, da.fn, db.fn)
 			if !ok {
-				return nil
+				return nil, why
 			}
 			nd := deferred{fn: m, call: da.call, args: make([]Value, len(da.args))}
 			if len(da.args) != len(db.args) {
-				return nil
+				return nil, why
 			}
 			for j := range da.args {
 				mv, ok := e.mergeValues(ga, da.args[j], db.args[j])
 				if !ok {
-					return nil
+					return nil, why
 				}
 				nd.args[j] = mv
 			}
@@ -709,8 +732,9 @@ func (e *Engine) merge2(a, b *State, base int) *State {
 	// return values
 	if a.status == stReturned {
 		m, ok := e.mergeValues(ga, a.ret, b.ret)
+		why = "return values: " + describe(a.ret) + " vs " + describe(b.ret)
 		if !ok {
-			return nil
+			return nil, why
 		}
 		n.ret = m
 	}
@@ -733,16 +757,62 @@ func (e *Engine) merge2(a, b *State, base int) *State {
 			n.heap[id] = ba
 		default:
 			m, ok := e.mergeValues(ga, ba.V, bb.V)
+			why = fmt.Sprintf("heap object %d: %s vs %s", id, describe(ba.V), describe(bb.V))
 			if !ok {
-				return nil
+				return nil, why
 			}
 			n.heap[id] = &Box{V: m, Epoch: -1}
 		}
 	}
-	// objects allocated only in b and not dirty-tracked (should not happen) are copied
+	// contents of unified objects (may unify further objects)
+	for i := 0; i < len(mc.pending); i++ {
+		x, y := mc.pending[i][0], mc.pending[i][1]
+		ba, bb := a.heap[x.ID], b.heap[y.ID]
+		m, ok := e.mergeValues(ga, ba.V, bb.V)
+		why = fmt.Sprintf("unified objects %d/%d: %s vs %s", x.ID, y.ID, describe(ba.V), describe(bb.V))
+		if !ok {
+			return nil, why
+		}
+		n.heap[x.ID] = &Box{V: m, Epoch: -1}
+		n.dirty[x.ID] = struct{}{}
+	}
+	dropped := map[int]bool{}
+	for y := range mc.uni {
+		dropped[y.ID] = true
+		delete(n.heap, y.ID)
+		delete(n.dirty, y.ID)
+	}
+	// objects that exist only in b are carried over, with references to unified objects renamed
 	for id, bx := range b.heap {
-		if _, ok := n.heap[id]; !ok {
-			n.heap[id] = bx
+		if dropped[id] {
+			continue
+		}
+		if _, ok := a.heap[id]; !ok {
+			if len(mc.uni) > 0 {
+				n.heap[id] = &Box{V: e.rewriteRefs(bx.V, mc.uni), Epoch: -1}
+			} else {
+				n.heap[id] = bx
+			}
+		}
+	}
+	if len(mc.uni) > 0 {
+		// merged values built from b's side may still mention b's objects
+		for id := range n.dirty {
+			if bx := n.heap[id]; bx != nil {
+				r := e.rewriteRefs(bx.V, mc.uni)
+				if !ptrEq(r, bx.V) {
+					n.heap[id] = &Box{V: r, Epoch: -1}
+				}
+			}
+		}
+		top := n.frames[len(n.frames)-1]
+		for r := range top.regs {
+			if top.regs[r] != nil {
+				top.regs[r] = e.rewriteRefs(top.regs[r], mc.uni)
+			}
+		}
+		if n.ret != nil {
+			n.ret = e.rewriteRefs(n.ret, mc.uni)
 		}
 	}
 	// path condition
@@ -751,7 +821,7 @@ func (e *Engine) merge2(a, b *State, base int) *State {
 		n.steps = b.steps
 	}
 	e.stats.Merges++
-	return n
+	return n, ""
 }
 
 // ptrEq reports reference identity for reference-like values, and false otherwise
@@ -777,4 +847,125 @@ func ptrEq(a, b Value) bool {
 		return ok && x == y
 	}
 	return false
+}
+
+// mergeCtx is active while two states are merged: objects allocated in only one of the two
+// arms since their common ancestor may be unified (B's object is renamed to A's), which lets
+// states that return freshly allocated structures (parsers!) merge instead of forking.
+type mergeCtx struct {
+	a, b    *State
+	uni     map[*Obj]*Obj // object of b -> object of a
+	rev     map[*Obj]*Obj
+	pending [][2]*Obj
+}
+
+// unify tries to identify y (object of state b) with x (object of state a).
+func (e *Engine) unify(x, y *Obj) bool {
+	mc := e.mctx
+	if mc == nil || x == nil || y == nil {
+		return false
+	}
+	if t, ok := mc.uni[y]; ok {
+		return t == x
+	}
+	if _, ok := mc.rev[x]; ok {
+		return false
+	}
+	// both must be local to their arm
+	if _, inB := mc.b.heap[x.ID]; inB {
+		return false
+	}
+	if _, inA := mc.a.heap[y.ID]; inA {
+		return false
+	}
+	if e.baseHeap[x.ID] != nil || e.baseHeap[y.ID] != nil {
+		return false
+	}
+	ba, bb := mc.a.heap[x.ID], mc.b.heap[y.ID]
+	if ba == nil || bb == nil {
+		return false
+	}
+	if (x.Typ == nil) != (y.Typ == nil) || (x.Typ != nil && !types.Identical(x.Typ, y.Typ)) {
+		return false
+	}
+	mc.uni[y] = x
+	mc.rev[x] = y
+	mc.pending = append(mc.pending, [2]*Obj{x, y})
+	return true
+}
+
+// rewriteRefs replaces references to unified objects of b inside v.
+func (e *Engine) rewriteRefs(v Value, uni map[*Obj]*Obj) Value {
+	if len(uni) == 0 {
+		return v
+	}
+	switch x := v.(type) {
+	case Pointer:
+		if t, ok := uni[x.Obj]; ok {
+			return Pointer{Obj: t, Path: x.Path}
+		}
+	case Slice:
+		if t, ok := uni[x.Obj]; ok {
+			x.Obj = t
+			return x
+		}
+	case Str:
+		if !x.Conc {
+			if t, ok := uni[x.Obj]; ok {
+				x.Obj = t
+				return x
+			}
+		}
+	case MapRef:
+		if t, ok := uni[x.Obj]; ok {
+			return MapRef{Obj: t}
+		}
+	case Iface:
+		if x.Typ != nil {
+			return Iface{Typ: x.Typ, Val: e.rewriteRefs(x.Val, uni)}
+		}
+	case *Agg:
+		var n *Agg
+		for i, el := range x.Elems {
+			r := e.rewriteRefs(el, uni)
+			if !ptrEq(r, el) {
+				switch r.(type) {
+				case *Term:
+				default:
+					if n == nil {
+						n = &Agg{Elems: append([]Value(nil), x.Elems...), Epoch: -1}
+					}
+					n.Elems[i] = r
+				}
+			}
+		}
+		if n != nil {
+			return n
+		}
+	case Tuple:
+		n := make(Tuple, len(x))
+		for i := range x {
+			n[i] = e.rewriteRefs(x[i], uni)
+		}
+		return n
+	case *MapObj:
+		n := &MapObj{Entries: make([]MapEntry, len(x.Entries)), Epoch: -1}
+		for i, en := range x.Entries {
+			n.Entries[i] = MapEntry{Key: e.rewriteRefs(en.Key, uni), Val: e.rewriteRefs(en.Val, uni), Present: en.Present}
+		}
+		return n
+	case *Closure:
+		if x != nil && len(x.Bindings) > 0 {
+			n := *x
+			n.Bindings = make([]Value, len(x.Bindings))
+			for i := range x.Bindings {
+				n.Bindings[i] = e.rewriteRefs(x.Bindings[i], uni)
+			}
+			if x.HasRecv {
+				n.Recv = e.rewriteRefs(x.Recv, uni)
+			}
+			return &n
+		}
+	}
+	return v
 }
